@@ -130,7 +130,7 @@ impl Property for C04 {
          oracle = exact simultaneous composition; reference evaluator with topological dependency evaluation; non-trivial = >=2 replacements with one of degree>=1, or chain length>=2, or cyclic/dangling graph; distinct = sha256(case)"
     }
     fn required_labels(&self) -> Vec<String> {
-        ["mode=function", "mode=instance", "mode=graph", "mode=log-encode", "simultaneous-overlap", "chain", "cycle", "dangling", "self-loop", "removed-constraint", "all-orders-seen", "two-substitute-calls", "n=5", "regime=general", "regime=dyadic", "renaming-map", "renaming-target-is-a-key"]
+        ["mode=function", "mode=instance", "mode=graph", "mode=log-encode", "simultaneous-overlap", "chain", "cycle", "dangling", "self-loop", "removed-constraint", "all-orders-seen", "two-substitute-calls", "n=5", "regime=general", "regime=dyadic", "renaming-map", "renaming-target-is-a-key", "replaced-variable-had-a-recorded-value"]
             .iter()
             .map(|s| s.to_string())
             .collect()
@@ -357,6 +357,19 @@ impl C04 {
         }
         ctx.sample_with(|| json!({"mode": if log_encode {"log_encode->substitute->evaluate"} else {"Instance::substitute->evaluate"}, "instance": describe_inst(&gi.inst), "first": format!("{:?}", repl1), "second": format!("{:?}", repl2), "state": format!("{:?}", sorted_state(&state))}));
 
+        // one of the variables about to be replaced may carry a value recorded by an earlier partial evaluation: once it
+        // is replaced, its reported value is that of its replacement
+        if t.p(48) {
+            if let Some(k) = replaced.iter().next().copied() {
+                if let Some(dv) = inst.decision_variables.iter_mut().find(|v| v.id == k) {
+                    if dv.substituted_value.is_none() {
+                        let stale = in_bound_value(t, dv, regime);
+                        dv.substituted_value = Some(stale);
+                        ctx.label("replaced-variable-had-a-recorded-value");
+                    }
+                }
+            }
+        }
         // SDK
         let hm1: HashMap<u64, v1::Function> = repl1.iter().map(|(k, v)| (*k, v.clone())).collect();
         if let Err(e) = inst.substitute(hm1) {
